@@ -74,7 +74,7 @@ def sprinkle(cases, seed, p_bw=0.12, p_log=0.08, p_prior=0.08, p_version=0.12):
         if b < p_log and 'debug_log' not in c and not c.get('real'):
             c['debug_log'] = True
         if r.random() < p_prior and 'prior_use' not in c and not c.get('real'):
-            c['prior_use'] = r.choice(['legacy', 'manager'])
+            c['prior_use'] = r.choice(['legacy', 'manager', 'overlap'])
         for t in c['transfers']:
             # an OLDER version of the object is asked for (VersionId in the copy source / in the download's extra arguments)
             # while the key's current version holds other data
